@@ -3,6 +3,7 @@
 (* copy_and_verify execution (schedule + what the verifier saw).              *)
 EXTENDS Copy, IOUtils
 T == ndJsonDeserialize(IOEnv.TRACE)
-Bad == {j \in 1..Len(T) : ~CopyAllowed(T[j])}
+Ok(ev) == IF ev.e = "pcopy" THEN PCellAllowed(ev) ELSE CopyAllowed(ev)
+Bad == {j \in 1..Len(T) : ~Ok(T[j])}
 ASSUME PrintT(<<"RESULT", ToJson([bad |-> Bad, n |-> Len(T)])>>)
 =============================================================================
